@@ -589,7 +589,8 @@ class XsdGlobals(XsdValidator, Collection[SchemaType]):
 
         try:
             yield self
-        except XMLSchemaException:
+        except BaseException as err:
+            # Restore the maps also if interrupted by a non-library exception
             self.clear()
             self._schemas.clear()
             self.namespaces.clear()
@@ -599,7 +600,7 @@ class XsdGlobals(XsdValidator, Collection[SchemaType]):
             self.substitution_groups.update(substitution_groups)
             self.identities.update(identities)
             self._built = built
-            if reraise:
+            if reraise or not isinstance(err, XMLSchemaException):
                 raise
 
     def check_loaded_schemas(self) -> None:
